@@ -199,72 +199,119 @@ func ruleP06Panics(p *Prog, r *Report) {
 	ctx := &panicCtx{p: p, r: r, rc: rc, fns: rc.moduleFuncs(), inSet: map[*ssa.Function]bool{}}
 	r.note("C06 entry points: %s; %d module functions reachable", strings.Join(names, ", "), len(ctx.fns))
 	type site struct {
-		f  *ssa.Function
-		pn *ssa.Panic
+		f     *ssa.Function
+		pn    *ssa.Panic
+		chain []ssa.CallInstruction
 	}
 	var sites []site
+	// a panic that was moved into a transparent helper belongs to the function(s) calling it
+	var attribute func(f *ssa.Function, pn *ssa.Panic, chain []ssa.CallInstruction, depth int)
+	attribute = func(f *ssa.Function, pn *ssa.Panic, chain []ssa.CallInstruction, depth int) {
+		top := f
+		for top.Parent() != nil {
+			top = top.Parent()
+		}
+		if depth < 3 && top == f && isHelper(f) {
+			for _, cs := range ht.sites[originFn(f)] {
+				if cs.Parent() != nil && ctx.rc.has(cs.Parent()) {
+					attribute(cs.Parent(), pn, append([]ssa.CallInstruction{cs}, chain...), depth+1)
+				}
+			}
+			return
+		}
+		sites = append(sites, site{f, pn, chain})
+	}
 	for _, f := range ctx.fns {
 		if f.Synthetic != "" {
 			continue
 		}
 		eachInstr(f, func(in ssa.Instruction) {
 			if pn, ok := in.(*ssa.Panic); ok {
-				sites = append(sites, site{f, pn})
+				attribute(f, pn, nil, 0)
 			}
 		})
 	}
-	sort.Slice(sites, func(i, j int) bool { return p.instrPos(sites[i].pn) < p.instrPos(sites[j].pn) })
+	sort.SliceStable(sites, func(i, j int) bool { return p.instrPos(sites[i].pn) < p.instrPos(sites[j].pn) })
 	seenKey := map[string]int{}
 	for _, s := range sites {
-		fname := fnName(originFn(s.f))
-		ident := panicIdent(s.pn)
-		key := fname + ":" + ident
-		seenKey[key]++
-		if seenKey[key] > 1 {
-			key += fmt.Sprintf("#%d", seenKey[key])
+		s := s
+		var undo func()
+		if len(s.chain) > 0 {
+			// resolve the helper's parameters through this call chain for the rest of the iteration
+			saved := map[*ssa.Function]ssa.CallInstruction{}
+			for _, cs := range s.chain {
+				if g := rawStaticCallee(cs); g != nil {
+					g = originFn(g)
+					saved[g] = ht.ctx[g]
+					ht.ctx[g] = cs
+					ht.pinned[g] = true
+				}
+			}
+			undo = func() {
+				for g, old := range saved {
+					delete(ht.pinned, g)
+					if old == nil {
+						delete(ht.ctx, g)
+					} else {
+						ht.ctx[g] = old
+					}
+				}
+			}
 		}
-		pos := p.instrPos(s.pn)
-		path := strings.Join(rc.path(s.f), " -> ")
-		switch {
-		case fname == "klog.Unbox":
-			ctx.dischargeUnbox(rule, key, s.f, s.pn)
-		case fname == "klog.NewDurationWithFormat":
-			ctx.dischargeDurationCtor(key, s.f, s.pn)
-		case fname == "(klog.duration).Plus":
-			r.bad("P06-partial", "klog.duration.Plus:overflow", pos, "duration.Plus panics on integer overflow and is reachable with operands taken from the file (e.g. service.Total folding every entry): two entries of 153722867280912930h crash every evaluation; path: %s", path)
-		case isAtoiErr(s.pn.X):
-			ctx.dischargeAtoiPanic(key, s.f, s.pn)
-		case fname == "(klog/parser/engine.ParallelBatchParser[T]).Parse":
-			ctx.dischargeWorkers(rule, key, s.pn)
-		case fname == "(*klog/service/period.bitMask).populate":
-			ctx.dischargePopulate(rule, key, s.pn)
-		case fname == "klog/app/cli/util.PrettyMonth":
-			ctx.dischargeSwitch(rule, key, s.f, s.pn, 1, 12, "Month")
-		case fname == "klog/app/cli/util.PrettyDay":
-			ctx.dischargeSwitch(rule, key, s.f, s.pn, 1, 7, "Weekday")
-		case fname == "(klog/service/period.Quarter).Period":
-			r.check(switchCovers(s.pn.Block(), "Quarter", 1, 4), rule, key, pos, "unreachable: the switch covers every value of Quarter() (1..4)", "the switch over Quarter() no longer covers 1..4: the panic is reachable")
-		case fname == "klog.NewTagOrPanic":
-			ctx.dischargeTagOrPanic(rule, key, s.f, s.pn)
-		case fname == "(*klog.date).PlusDays":
-			ctx.dischargePlusDays(key, s.f, s.pn)
-		case fname == "klog/parser.parse" && ident == "Could not detect indentation":
-			r.assume(rule, key, pos, "reasoned exception: the entries loop is entered either after the summary loop stopped at an indented line (indentator != nil) or with no lines left (the summary loop consumes one line per iteration of a range over the same slice); confirmed by reading")
-		case fname == "klog.NewDateFromGo" || fname == "klog.NewTimeFromGo":
-			r.assume(rule, key, pos, "out of scope (not file content): the operand is a clock reading; time.Time accessors are always a valid civil date/time")
-		case fname == "klog/app.NewFileOrPanic":
-			r.assume(rule, key, pos, "out of scope (not file content): paths come from arguments/configuration and are made absolute by NewFile or joined onto an absolute folder")
-		case fname == "klog/app/cli/terminalformat.NewStyler":
-			r.assume(rule, key, pos, "out of scope (not file content): the theme comes from validated configuration or a constant")
-		case fname == "klog/app/cli/terminalformat.NewTable":
-			ctx.dischargeNewTable(rule, key, s.f, s.pn)
-		case fname == "klog/parser/json.ToJson" || fname == "(*klog/app.bookmarksCollection).ToJson":
-			r.assume(rule, key, pos, "reasoned exception: encoding/json cannot fail on structs of strings, ints and slices of those (invalid UTF-8 is replaced, not rejected)")
-		case fname == "(klog/service/period.Year).Previous":
-			r.assume(rule, key, pos, "out of scope for C06 (not file content): reached only through --last-year, i.e. from the clock; the calendar-end defect itself is recorded under C15 (P15-total)")
-		default:
-			r.bad(rule, key, pos, "reachable explicit panic that no rule discharges (new panic?); path: %s", path)
-		}
+		func() {
+			if undo != nil {
+				defer undo()
+			}
+			fname := fnName(originFn(s.f))
+			ident := panicIdent(s.pn)
+			key := fname + ":" + ident
+			seenKey[key]++
+			if seenKey[key] > 1 {
+				key += fmt.Sprintf("#%d", seenKey[key])
+			}
+			pos := p.instrPos(s.pn)
+			path := strings.Join(rc.path(s.f), " -> ")
+			switch {
+			case fname == "klog.Unbox":
+				ctx.dischargeUnbox(rule, key, s.f, s.pn)
+			case fname == "klog.NewDurationWithFormat":
+				ctx.dischargeDurationCtor(key, s.f, s.pn)
+			case fname == "(klog.duration).Plus":
+				r.bad("P06-partial", "klog.duration.Plus:overflow", pos, "duration.Plus panics on integer overflow and is reachable with operands taken from the file (e.g. service.Total folding every entry): two entries of 153722867280912930h crash every evaluation; path: %s", path)
+			case isAtoiErr(s.pn.X):
+				ctx.dischargeAtoiPanic(key, s.f, s.pn)
+			case fname == "(klog/parser/engine.ParallelBatchParser[T]).Parse":
+				ctx.dischargeWorkers(rule, key, s.pn)
+			case fname == "(*klog/service/period.bitMask).populate":
+				ctx.dischargePopulate(rule, key, s.pn)
+			case fname == "klog/app/cli/util.PrettyMonth":
+				ctx.dischargeSwitch(rule, key, s.f, s.pn, 1, 12, "Month")
+			case fname == "klog/app/cli/util.PrettyDay":
+				ctx.dischargeSwitch(rule, key, s.f, s.pn, 1, 7, "Weekday")
+			case fname == "(klog/service/period.Quarter).Period":
+				r.check(switchCovers(s.pn.Block(), "Quarter", 1, 4), rule, key, pos, "unreachable: the switch covers every value of Quarter() (1..4)", "the switch over Quarter() no longer covers 1..4: the panic is reachable")
+			case fname == "klog.NewTagOrPanic":
+				ctx.dischargeTagOrPanic(rule, key, s.f, s.pn)
+			case fname == "(*klog.date).PlusDays":
+				ctx.dischargePlusDays(key, s.f, s.pn)
+			case fname == "klog/parser.parse" && ident == "Could not detect indentation":
+				r.assume(rule, key, pos, "reasoned exception: the entries loop is entered either after the summary loop stopped at an indented line (indentator != nil) or with no lines left (the summary loop consumes one line per iteration of a range over the same slice); confirmed by reading")
+			case fname == "klog.NewDateFromGo" || fname == "klog.NewTimeFromGo":
+				r.assume(rule, key, pos, "out of scope (not file content): the operand is a clock reading; time.Time accessors are always a valid civil date/time")
+			case fname == "klog/app.NewFileOrPanic":
+				r.assume(rule, key, pos, "out of scope (not file content): paths come from arguments/configuration and are made absolute by NewFile or joined onto an absolute folder")
+			case fname == "klog/app/cli/terminalformat.NewStyler":
+				r.assume(rule, key, pos, "out of scope (not file content): the theme comes from validated configuration or a constant")
+			case fname == "klog/app/cli/terminalformat.NewTable":
+				ctx.dischargeNewTable(rule, key, s.f, s.pn)
+			case fname == "klog/parser/json.ToJson" || fname == "(*klog/app.bookmarksCollection).ToJson":
+				r.assume(rule, key, pos, "reasoned exception: encoding/json cannot fail on structs of strings, ints and slices of those (invalid UTF-8 is replaced, not rejected)")
+			case fname == "(klog/service/period.Year).Previous":
+				r.assume(rule, key, pos, "out of scope for C06 (not file content): reached only through --last-year, i.e. from the clock; the calendar-end defect itself is recorded under C15 (P15-total)")
+			default:
+				r.bad(rule, key, pos, "reachable explicit panic that no rule discharges (new panic?); path: %s", path)
+			}
+		}()
 	}
 	if len(sites) < 12 {
 		r.undecided(rule, "floor", "-", "only %d reachable panic sites found, expected at least 12 (call graph incomplete?)", len(sites))
